@@ -4,7 +4,7 @@
    `inc_inv f`          f does not read `item_incurred_increase` (the only field an iteration of the loop writes)
    `dist_ok p prop lim` the class of tracks the statements are about: affected property finite, limit finite or +infinity,
                         incurred increase finite and >= 0, distribution proportion finite and >= 0
-   `base_inner_fuelled e1 e2`, `growth_limit_fuelled e`
+   `base_inner_fuelled e1 e2`, `base_size_fuelled e1 e2`, `growth_limit_fuelled e`
                         distribute_item_space_to_base_size_inner / distribute_item_space_to_growth_limit with `e` more rounds of
                         fuel at their calls of distribute_space_up_to_limits (e = 0 is the model's function, by computation:
                         `base_inner_fuelled_0`, `growth_limit_fuelled_0` in Proofs/FuelDistProofs.v) *)
@@ -52,6 +52,17 @@ Section Fuelled.
         else ts1 in
       map (fun t => let t' := if base_planned t <? incurred t then set_base_planned t (incurred t) else t in
                     set_incurred t' zero) ts2.
+
+  (* distribute_item_space_to_base_size (what `to_base` calls), over base_inner_fuelled *)
+  Definition base_size_proportion (is_flex use_flex_factor : bool) : track -> T :=
+    if is_flex && use_flex_factor then flex_factor else fun _ => one.
+  Definition base_size_fuelled (e1 e2 : nat) (is_flex use_flex_factor : bool) (space : T) (tracks : list track)
+             (is_affected : track -> bool) (limit : track -> T) (ct : contribution_type) : list track :=
+    if is_flex then
+      let flt := fun t => is_flexible t && is_affected t in
+      if use_flex_factor then base_inner_fuelled e1 e2 space tracks flt flex_factor limit ct
+      else base_inner_fuelled e1 e2 space tracks flt (fun _ => one) limit ct
+    else base_inner_fuelled e1 e2 space tracks is_affected (fun _ => one) limit ct.
 
   Definition growth_limit_fuelled (inner : option T) (e : nat) (space : T) (tracks : list track) (is_affected : track -> bool)
     : list track :=
